@@ -457,6 +457,23 @@ func init() {
 					}
 				}
 				sort.Strings(missing)
+				if len(missing) > 0 {
+					// the literal is handed to someone else before it is rendered (a callback that fills in the
+					// values only this node kind has): what that callee stores cannot be read off here
+					for _, o := range p.origins(site.Common().Args[3], OriginOpts{}) {
+						mk, ok := o.(*ssa.MakeMap)
+						if !ok || mk.Referrers() == nil {
+							continue
+						}
+						for _, r := range *mk.Referrers() {
+							if cs, ok := r.(ssa.CallInstruction); ok && cs != site {
+								if _, isBuiltin := cs.Common().Value.(*ssa.Builtin); !isBuiltin && cs.Common().StaticCallee() != p.MustFn("(*markdown.Markdown).renderTemplate") {
+									undecided("template %s: the data literal of %s is passed to %s before it is rendered; the keys stored there are not visible to this rule", name, shortName(site.Parent()), calleeName(cs.Common()))
+								}
+							}
+						}
+					}
+				}
 				c.check(len(missing) == 0, "template "+name+" variables ⊆ data ("+shortName(site.Parent())+")", p.instrPos(site), fmt.Sprintf("%d variable(s) read, all provided on every path", len(vars)), "the template reads "+strings.Join(missing, ", ")+" but the data literal does not provide it on every path: the name falls through to the site configuration loaded from the content filesystem (lowest-precedence data), or renders empty")
 			}
 			var names []string
